@@ -50,6 +50,9 @@ def obligations(tier):
         Obligation("canonical_text_injective", H, "inject", inject_shards(tier), kind="script", script_args=["inject"], cond_timeout=1000, encoded=ENC,
                    bounds="pairs of definition shapes among signal, message with 1-2 (3 in thorough) fields, message by field-list reuse, struct with 1-2 (3) fields; strings <= %d characters (<= 6 for the field-name/one-field queries)" % (3 if tier == "quick" else 4),
                    symbolic="every definition element as a z3 string constrained by its grammar; query: definitions differ AND hashed texts equal -> unsat"),
+        Obligation("accepted_type_texts_hash_apart", H, "inject", [{"what": "pool", "nsuffix": 5}], kind="script", script_args=["inject"], cond_timeout=300, encoded=ENC,
+                   bounds="one-field message and struct whose field type text ranges over every native type name x {scalar, [2], [4], [ 4 ], [N]} (135 accepted texts, all pairs); the texts are produced by the real handlers on this run",
+                   symbolic="the two pool indices i < j (z3 integers over an uninterpreted-function table of the 135 hashed texts)"),
         Obligation("back_ends_print_first_32_bits", H, "h_printers", [{"backend": b} for b in ("c", "js", "matlab")] + pys, cond_timeout=400, path_timeout=120,
                    flags=("nofmt",), reach="h_printers_reach", reach_shards=[{"backend": "c"}], encoded=ENC,
                    bounds="hash string of 10 hex digits; C/JS/MATLAB fully symbolic; Python printer with a 3-character symbolic window sliding over the string (.upper() of a fully symbolic string does not finish)",
